@@ -81,13 +81,16 @@ def run(ctx):
         jobs["behA1"] = lambda: beh(ctx, SPEC_A, "MC_ChannelCache", "Beh_ChannelCache_thorough.cfg", "behA1", timeout=6000)
     jobs["simA"] = lambda: beh(ctx, SPEC_A, "MC_ChannelCache", "Sim_ChannelCache.cfg", "simA", num=150 if q else 3000, depth=14)
     jobs["behB"] = lambda: beh(ctx, SPEC_B, "MC_Changes", "Beh_Changes.cfg", "behB")        # every 2-write history of one document
+    # ... and every 3-write history of one document over put {A} / put {A,B} / delete (create, move, delete, resurrect)
+    jobs["behB3"] = lambda: beh(ctx, SPEC_B, "MC_Changes", "Beh_Changes3.cfg", "behB3")
     jobs["simB"] = lambda: beh(ctx, SPEC_B, "MC_Changes", "Sim_Changes.cfg", "simB", num=10 if q else 200, depth=10)
     res = parallel(jobs)
     a = gen_a(ctx, res["behA1"] + res.get("behA2", []) + res["simA"])
-    b = gen_b(ctx, res["behB"], res["simB"])
+    b = gen_b(ctx, res["behB"] + res["behB3"], res["simB"])
     # one go test invocation (one link of the db test binary) runs both harnesses
     ctr = os.path.join(ctx.scratch, "c01c.ndjson")
-    cenv = {"VERIF_TRACE_OUT_C": ctr, "VERIF_C01_CONT_ROUNDS": 2 if ctx.quick() else 8}
+    cenv = {"VERIF_TRACE_OUT_C": ctr, "VERIF_C01_CONT_ROUNDS": 2 if ctx.quick() else 8,
+            "VERIF_C01_LATE_ROUNDS": 1 if ctx.quick() else 4, "VERIF_C01_LATE_GROUPS": 3 if ctx.quick() else 6}
     rc, out = go_test(ctx, "db", "^TestVerif_C01_(ChannelCache|Changes|Continuous)$", HARNESS, env=dict(a["env"], **b["env"], **cenv),
                       timeout=1800 if ctx.quick() else 7200)
     if rc != 0 or not os.path.exists(a["tr"]) or not os.path.exists(b["tr"]) or not os.path.exists(ctr):
@@ -180,7 +183,7 @@ def check_a(ctx, a, vp, vc):
 
 
 def vlog(name, v, n):
-    log("  TLC %-28s validated %d/%d lines%s" % (name, v.consumed if not v.inv else (v.line or 0), n, (" violated " + v.inv) if v.inv else ""))
+    log("  TLC %-28s validated %d/%d lines%s" % (name, v.consumed if not v.inv else max(0, (v.line or 1) - 1), n, (" violated " + v.inv) if v.inv else ""))
 
 
 def locate(rows, line):
@@ -302,28 +305,40 @@ def check_c(ctx, tr, cenv, vfirst):
             raise Inconclusive("C01(c) pass P stopped at line %s of %s\n%s" % (vp.line, vp.total, vp.out[-1500:]))
         return rows, vp
     rows, vp = one(tr, "contP", vfirst)
-    feeds = [r for r in rows if r["a"] == "Cont"]
+    feeds = [r for r in rows if r["a"] in ("Cont", "Late")]
+    nrows = lambda r: sum(len(p["rows"]) for p in r["resp"][0]["pages"]) if r["a"] == "Late" else len(r["resp"][0]["rows"])
+    late = [r for r in feeds if r["a"] == "Late"]
     ctx.cov["evaluations"] += len(feeds)
-    ctx.cov["c01_continuous"] = {"feeds": len(feeds), "rows_delivered": sum(len(r["resp"][0]["rows"]) for r in feeds), "first_run_missed": bool(vp.inv)}
-    if vp.inv:
-        # a miss must reproduce: second, independent run of the racing scenario
+    ctx.cov["c01_continuous"] = {"feeds_racing_writers": len(feeds) - len(late), "feeds_over_late_arrivals": len(late),
+                                 "rows_delivered": sum(nrows(r) for r in feeds), "first_run_missed": bool(vp.inv),
+                                 "late_feed_iterations": sum(len(r["resp"][0]["pages"]) for r in late),
+                                 "compound_tokens_delivered": sum(1 for r in late for p in r["resp"][0]["pages"] for x in p["rows"] if "::" in x["seq"])}
+
+    def report(rows_, v, twice):
+        line = max(1, (v.line or 2) - 1)
+        fail = rows_[line - 1]
+        key = "c:%s:%s:%s:%s" % (fail["a"], v.inv, fail.get("u"), json.dumps(fail.get("req")))
+        what = "racing with writers" if fail["a"] == "Cont" else "over late-arriving sequences"
+        report_violation(ctx, key, "continuous feed of %s on %s %s: %s%s" % (fail.get("u"), fail.get("req"), what, v.inv, " (in two independent runs)" if twice else ""),
+                         {"part": "Continuous", "invariant": v.inv, "feed": {"u": fail.get("u"), "req": fail.get("req")},
+                          "admin_view": last_view2(rows_, line), "delivered": trim(fail)})
+
+    if vp.inv and vp.inv != "REventually":
+        report(rows, vp, False)       # order / repetition / soundness of what was delivered: a fact about recorded output
+    elif vp.inv:
+        # a miss of the eventual delivery must reproduce: second, independent run
         tr2 = tr + ".2"
         rc, out = go_test(ctx, "db", "^TestVerif_C01_Continuous$", HARNESS, env=dict(cenv, VERIF_TRACE_OUT_C=tr2, VERIF_SEED=ctx.seed + 1000))
         if rc != 0 or not os.path.exists(tr2):
             raise Inconclusive("C01 continuous harness failed on the confirmation run:\n" + harness_failure(out))
         rows2, vp2 = one(tr2, "contP2")
         if vp2.inv:
-            line = max(1, (vp2.line or 2) - 1)
-            fail = rows2[line - 1]
-            key = "c:%s:%s:%s" % (vp2.inv, fail.get("u"), json.dumps(fail.get("req")))
-            report_violation(ctx, key, "continuous feed of %s on %s racing with writers: %s (missed in two independent runs)" % (fail.get("u"), fail.get("req"), vp2.inv),
-                             {"part": "Continuous", "invariant": vp2.inv, "feed": {"u": fail.get("u"), "req": fail.get("req")},
-                              "admin_view": last_view2(rows2, line), "delivered": trim(fail)})
+            report(rows2, vp2, vp2.inv == "REventually")
         else:
             ctx.notes.append("C01(c): a continuous feed missed a final revision within the bound in one run and not in the confirmation run (not reported)")
     else:
         ctx.cov["traces_validated_against_impl"] += len(feeds)
-        ctx.cov["distinct_nontrivial"] += sum(1 for r in feeds if r["resp"][0]["rows"])
+        ctx.cov["distinct_nontrivial"] += sum(1 for r in feeds if nrows(r))
 
 
 def last_view2(rows, line):
